@@ -299,6 +299,36 @@ def random_spec(rng, nusers):
     return spec
 
 
+def reactor_answer_order(version, seed, n=8, thr=None):
+    """The networking thread is a writer too: the answers its reactor queues (keep-alive answers, teleport confirmations,
+    position echoes) reach the wire in the order in which they were queued, i.e. in the order of the server packets that
+    caused them - also when a whole burst is read before anything is written. (Round 11, C12k: keep-alive answers
+    that jump the queue.)"""
+    from . import c11
+    rng = random.Random(seed)
+    hist, used = [], set()
+    for i in range(n):
+        kind = 'pl' if (i % 2 == 0 or rng.random() < 0.3) else 'ka'
+        v = rng.randrange(1, 2 ** 20)
+        while v in used:
+            v += 1
+        used.add(v)
+        hist.append((kind, v))
+    run, tr, prof = c11.execute(version, hist, seed, thr=thr, chunk=None)
+    want, got = [], []
+    for e in tr['ev']:
+        if e['k'] == 'srv' and e['p'][0] == 'ka':
+            want.append(['ka', e['p'][1]])
+        elif e['k'] == 'srv' and e['p'][0] == 'pl':
+            want.append(['tc', e['p'][1]] if prof.ge(107) else ['pos', e['p'][1]])
+        elif e['k'] == 'c2s' and not (prof.ge(107) and e['p'][0] == 'pos'):
+            got.append(e['p'])
+    if got != want:
+        j = next((j for j in range(min(len(got), len(want))) if got[j] != want[j]), min(len(got), len(want)))
+        return 'answers on the wire differ from the order in which they were queued at entry %d: wire %r, queued %r' % (j, got[j:j + 3], want[j:j + 3])
+    return None
+
+
 def run(chk):
     core.import_minecraft()
     rng = random.Random(chk.seed)
@@ -446,6 +476,15 @@ def run(chk):
         elif not r2.ok:
             raise core.MachineryError('Trace_Writer failed: %s' % r2.errors[:3])
     chk.sample({'scenario': traces[-1]['spec'], 'events': traces[-1]['ev'][:12]})
+    # ---- the reactor's own answers: queued by one thread (the networking thread), so in queue order on the wire
+    for j in range(12 if chk.tier == 'quick' else 120):
+        v = [47, 107, 340, 578, 757, 210][j % 6]
+        what = reactor_answer_order(v, chk.seed * 547 + j, n=6 + j % 5, thr=(None, 0, 64)[j % 3])
+        chk.traces += 1
+        chk.case(('reactor_order', j))
+        if what:
+            chk.violation('writers:reactor-answer-order', 'a burst of teleports and keep-alives at protocol %d: %s' % (v, what),
+                          {'version': v, 'seed': chk.seed * 547 + j})
     chk.extra['random_schedule_executions'] = n_rand
     chk.assumptions += ['CPython deque.append / popleft are atomic; preemption at every lock, queue, socket and thread operation',
                         'the peer\'s deframer (own zlib / CFB8 use) defines where frames begin and end on the wire']
